@@ -6,7 +6,7 @@ def std_cfg(**over):
     r = rng('std')
     fdata = bytes(r.randrange(256) for _ in range(10))
     cfg = {
-        'shell': {b'shell:cmd1': [b'ab\xc3', b'\xa9\n'], b'exec:cmd1': [b'\xff\x00z'], b'shell:empty': []},
+        'shell': {b'shell:cmd1': [b'ab\xc3', b'\xa9\n', b'\x00\x00'], b'exec:cmd1': [b'\xff\x00z'], b'shell:empty': []},
         'fs': {'files': {b'/f': {'data': fdata, 'mode': 0o100644, 'mtime': 0x5F5E1000}},
                'dirs': {b'/d': [(b'a', 0o100644, 3, 5), (b'\xff\x00/', 0x41ED, 0xFFFFFFFF, 0x80000000)]}},
         'records': [4],
@@ -26,3 +26,54 @@ def std_ops(push_size=40):
 def fs_view(env):
     """What the model filesystem saw (ground truth for push)."""
     return [(s[0], s[1], s[2], s[3], s[4]) for s in env.fs.sends]
+
+
+# ---------------------------------------------------------------------------------------------- the 8-operation alphabet
+REMOTE_FAMILIES = {
+    'small': (0x1001, 0x1002, 0x1003, 0x1004, 0x1005, 0x1006),
+    'extreme': (0xFFFFFFFF, 0x80000000, 0xFFFFFFFE, 0x7FFFFFFF, 0x80000001, 0xFFFFFFFD),
+    'same': (0x5A5A5A5A,),          # the device may reuse its id for consecutive streams
+}
+OPS8 = ('shell', 'exec_out', 'streaming_shell', 'root', 'list', 'stat', 'pull', 'push')
+SHELL_OUT = b'l1\xc3\xa9\nl2\x00\xff'
+FILE_F = bytes(range(7, 57))
+DIR_D = [(b'a', 0o100644, 3, 5), (b'\xff\x00/', 0x41ED, 0xFFFFFFFF, 0x80000000)]
+
+
+def chunk(data, mode):
+    if mode == 'one' or not data:
+        return [data] if data else []
+    if mode == 'two':
+        h = max(1, len(data) // 2)
+        return [c for c in (data[:h], data[h:]) if c]
+    return [data[i:i + 1] for i in range(len(data))]
+
+
+def ops_cfg(chunking='one', maxdata=1024 * 1024, clse='after-ack', family='small', push_size=40):
+    cfg = {
+        'maxdata': maxdata,
+        'clse': clse,
+        'remote_ids': REMOTE_FAMILIES[family],
+        'shell': {b'shell:c': chunk(SHELL_OUT, chunking), b'exec:c': chunk(SHELL_OUT[::-1], chunking), b'root:': chunk(b'restarting adbd as root\n', chunking)},
+        'fs': {'files': {b'/f': {'data': FILE_F, 'mode': 0o100644, 'mtime': 0x5F5E1000}}, 'dirs': {b'/d': DIR_D}},
+        'records': {'one': None, 'two': [len(FILE_F) // 2], 'bytes': 1}[chunking],
+        'cut': {'one': None, 'two': {'sizes': [13], 'size': maxdata}, 'bytes': {'size': 1}}[chunking],
+    }
+    return cfg
+
+
+def push_data(size):
+    return rng('pushdata', size).randbytes(size) if size else b''
+
+
+def op_tuple(name, push_size=40):
+    return {'shell': ('shell', 'c', {'decode': False}), 'exec_out': ('exec_out', 'c', {'decode': False}),
+            'streaming_shell': ('streaming_shell', 'c', {'decode': False}), 'root': ('root',), 'list': ('list', '/d'), 'stat': ('stat', '/f'),
+            'pull': ('pull', '/f', 'bytesio'), 'push': ('push', ('bytes', push_data(push_size)), '/g', {'mtime': 7})}[name]
+
+
+def op_expected(name, cfg):
+    sh = cfg['shell']
+    return {'shell': ('ok', b''.join(sh[b'shell:c'])), 'exec_out': ('ok', b''.join(sh[b'exec:c'])), 'streaming_shell': ('ok', list(sh[b'shell:c'])),
+            'root': ('ok', None), 'list': ('ok', [(bytearray(n), m, z, t) for (n, m, z, t) in DIR_D]), 'stat': ('ok', (0o100644, len(FILE_F), 0x5F5E1000)),
+            'pull': ('ok', FILE_F), 'push': ('ok', None)}[name]
